@@ -36,7 +36,9 @@ Eq(env, T, x, y) ==
                                      /\ Eq(env, T.key, x.kv[i].k, y.kv[j].k)
                                      /\ Eq(env, T.e, x.kv[i].v, y.kv[j].v)
     [] T.k = "struct" -> LET e2 == Bind(env, T) IN
-                         \A i \in DOMAIN T.fields : Eq(e2, T.fields[i].t, x.fs[i], y.fs[i])
+                         IF HasMeth(T)          \* the answer at this component is the user's method: first field only
+                         THEN Eq(e2, T.fields[1].t, x.fs[1], y.fs[1])
+                         ELSE \A i \in DOMAIN T.fields : Eq(e2, T.fields[i].t, x.fs[i], y.fs[i])
 
 (* Identical: Eq and additionally the same leaf representation (+0 is not  *)
 (* -0).  For copy / round-trip properties (C05, C06).                      *)
@@ -92,7 +94,11 @@ Diff(env, T, x, y) ==
                 THEN {"key@map"} ELSE {}) \cup
                UNION {Diff(env, T.key, x.kv[p[1]].k, y.kv[p[2]].k) \cup Diff(env, T.e, x.kv[p[1]].v, y.kv[p[2]].v) : p \in matched})
     [] T.k = "struct" -> LET e2 == Bind(env, T) IN
-                         UNION {Diff(e2, T.fields[i].t, x.fs[i], y.fs[i]) : i \in DOMAIN T.fields}
+                         IF HasMeth(T)
+                         THEN Diff(e2, T.fields[1].t, x.fs[1], y.fs[1]) \cup
+                              (IF \E i \in DOMAIN T.fields : i > 1 /\ ~Identical(e2, T.fields[i].t, x.fs[i], y.fs[i])
+                               THEN {"ignored-by-method"} ELSE {})
+                         ELSE UNION {Diff(e2, T.fields[i].t, x.fs[i], y.fs[i]) : i \in DOMAIN T.fields}
 
 -----------------------------------------------------------------------------
 (* Laws over OBSERVED results.  P is a pool (sequence of entries), eqm /   *)
@@ -119,7 +125,7 @@ HashRespectsBad(h, rel, N) == {<<i, j>> \in N \X N : i < j /\ rel[i][j] /\ h[i] 
 (* IMPLEMENTATION-SHAPED LAYER: today's templates, transcribed.            *)
 (* pos = "top" (a generated function body: genStatement) or "field"        *)
 (* (an expression inside one: field()).  The only place they differ: a     *)
-(* []byte in field position is handed to bytes.Equal / bytes.Compare.      *)
+(* []byte in field position is compared by nil-ness && bytes.Equal.        *)
 IsBytes(T) == T.k = "slice" /\ T.e.k = "basic" /\ T.e.b = "uint8"
 
 RECURSIVE EqImpl(_, _, _, _, _)
@@ -132,7 +138,8 @@ EqImpl(env, T, x, y, pos) ==
                                      IF pos = "field" /\ T.e.k \notin {"named", "struct", "self"} THEN "field" ELSE "top")
     [] T.k = "slice"  ->
          IF pos = "field" /\ IsBytes(T)
-         THEN /\ LenOf(x, "es") = LenOf(y, "es")                            \* bytes.Equal: nil == empty
+         THEN /\ x.nil = y.nil                                              \* (a == nil) == (b == nil) && bytes.Equal(a, b)
+              /\ LenOf(x, "es") = LenOf(y, "es")
               /\ \A i \in 1..LenOf(x, "es") : Rank("uint8", x.es[i].tok) = Rank("uint8", y.es[i].tok)
          ELSE /\ x.nil = y.nil
               /\ \/ x.nil
@@ -146,7 +153,8 @@ EqImpl(env, T, x, y, pos) ==
                                      /\ Eq(env, T.key, x.kv[i].k, y.kv[j].k)
                                      /\ EqImpl(env, T.e, x.kv[i].v, y.kv[j].v, "field")
     [] T.k = "struct" -> LET e2 == Bind(env, T) IN
-                         \A i \in DOMAIN T.fields : EqImpl(e2, T.fields[i].t, x.fs[i], y.fs[i], "field")
+                         IF HasMeth(T) THEN EqImpl(e2, T.fields[1].t, x.fs[1], y.fs[1], "field")   \* this.A.Equal(that.A)
+                         ELSE \A i \in DOMAIN T.fields : EqImpl(e2, T.fields[i].t, x.fs[i], y.fs[i], "field")
 
 Sgn(a, b) == IF a < b THEN -1 ELSE IF a > b THEN 1 ELSE 0
 
@@ -173,8 +181,7 @@ CmpImpl(env, T, x, y, pos) ==
                          ELSE IF y.nil THEN 1
                          ELSE CmpImpl(env, T.e, x.v, y.v, "top")
     [] T.k = "slice"  ->
-         IF pos = "field" /\ IsBytes(T) THEN BytesCmp(EsOf(x), EsOf(y), 1)
-         ELSE IF x.nil THEN (IF y.nil THEN 0 ELSE -1)
+         IF x.nil THEN (IF y.nil THEN 0 ELSE -1)                                 \* (no bytes.Compare shortcut since a8c073e)
          ELSE IF y.nil THEN 1
          ELSE IF Len(x.es) # Len(y.es) THEN Sgn(Len(x.es), Len(y.es))            \* length first
          ELSE FirstNZ([i \in DOMAIN x.es |-> CmpImpl(env, T.e, x.es[i], y.es[i], "field")], 1)
@@ -191,14 +198,21 @@ CmpImpl(env, T, x, y, pos) ==
                          THEN CmpImpl(env, T.e, xs[i].v, ys[i].v, "field")
                          ELSE CmpImpl(env, T.key, xs[i].k, ys[i].k, "field")], 1)
     [] T.k = "struct" -> LET e2 == Bind(env, T) IN
-         FirstNZ([i \in DOMAIN T.fields |-> CmpImpl(e2, T.fields[i].t, x.fs[i], y.fs[i], "field")], 1)
+         IF HasMeth(T) THEN CmpImpl(e2, T.fields[1].t, x.fs[1], y.fs[1], "field")                 \* this.A.Compare(that.A)
+         ELSE FirstNZ([i \in DOMAIN T.fields |-> CmpImpl(e2, T.fields[i].t, x.fs[i], y.fs[i], "field")], 1)
 
 (* Hash: 17/31 accumulation.  TLC integers are 32 bit, so the accumulator  *)
 (* lives modulo a prime; leaf "bit patterns" are injective on TOKENS (a    *)
 (* twin token such as -0 has its own pattern, as Float64bits has).         *)
 HMod == 1000003
 Acc(h, c) == (31 * h + c) % HMod
-LeafBits(b, tok) == IF b = "bool" THEN (IF tok = "true" THEN 1 ELSE 0) ELSE 100 + TokIdx[b][tok]
+\* since 4c93b29 floats are hashed as Float64bits(x + 0): a twin (-0) has the pattern of its canonical token
+CanonIdx(b, tok) == IF LeafTab[b][TokIdx[b][tok]].twin
+                    THEN CHOOSE i \in DOMAIN LeafTab[b] : ~LeafTab[b][i].twin /\ LeafTab[b][i].rank = Rank(b, tok)
+                    ELSE TokIdx[b][tok]
+LeafBits(b, tok) == IF b = "bool" THEN (IF tok = "true" THEN 1 ELSE 0)
+                    ELSE IF b \in FloatKinds THEN 100 + CanonIdx(b, tok)
+                    ELSE 100 + TokIdx[b][tok]
 
 RECURSIVE FoldAcc(_, _, _)
 FoldAcc(h, cs, i) == IF i > Len(cs) THEN h ELSE FoldAcc(Acc(h, cs[i]), cs, i + 1)
@@ -221,6 +235,7 @@ HashImpl(env, T, x) ==
               FoldAcc(17, FlatSeq([i \in DOMAIN xs |-> <<HashImpl(env, T.key, xs[i].k), HashImpl(env, T.e, xs[i].v)>>]), 1)
     [] T.k = "struct" ->
          LET e2 == Bind(env, T)
+             \* (a user Hash() uint64 method is NOT honoured by the template: structural hash)
              \* unexported fields of imported structs are skipped by the template
              idx == SelectSeq([i \in DOMAIN T.fields |-> i],
                               LAMBDA i : ~(T.pkg = "ext" /\ ~Exported(T.fields[i].name))) IN
